@@ -18,7 +18,8 @@
      (`packBinY` for callBin, `packFnValueY` for a host function reached through `call`, `packDeferY` for the record a defer
      statement stores and runDeferred calls) —, result routing `routeY`;
   5. the reflect.MakeFunc wrapper `wrapperCall` (allocate frame, copy arguments, run body, return data[lo:lo+numRet]) and the
-     wrapper of a method `methodWrapperCall` (the receiver is the one read when the wrapper was made).
+     wrapper of a method `methodWrapperCall` (a receiver read from the script is bound when the wrapper is made, the value held by
+     an interface is reached at each call).
 
   `reflect` itself (Call / CallSlice packing, assignability, MakeFunc) appears only through documented behaviour
   (`reflectCallPack`, `hostAssignable`): trusted base, exercised by the correspondence run.
@@ -518,7 +519,9 @@ structure Facts where
   nestedReadIdx : IExpr           -- consumer of nested call results: ind := c.findex + j
   wrapFrameIsDefTypes : Bool      -- newFrame(f, len(def.types), …)
   wrapFramePerCall : Bool         -- … and that newFrame call is INSIDE the function literal given to reflect.MakeFunc
-  wrapRecvAtCreation : Bool       -- the method receiver is read (`rcvr(f)`) OUTSIDE that literal: bound when the wrapper is made
+  wrapRecvAtCreation : Bool       -- a receiver read from the script (`n.recv.node != nil`) is bound OUTSIDE that literal: when the wrapper is made
+  wrapRecvHeldAtCall : Bool       -- a receiver record without node (`late`: the value held by an interface) is reached INSIDE it: at each call
+  ifaceWrapRecvHeld : Bool        -- genInterfaceWrapper: the method wrappers of a conversion get `receiver{val: rv}`, rv a copy of the converted value
   getFuncFramePerCall : Bool      -- getFunc: fr2 := newFrame(…) inside its reflect.MakeFunc literal
   wrapArgBase : IExpr             -- d = d[numRet:]  (base = numRet)
   wrapRcvrShift : Nat             -- d = d[numRet+1:]
@@ -708,13 +711,41 @@ def wrapperCallWith (lo : Nat) (hi : IExpr) (f : Facts) (d : FnDef) (call : Rep 
 def wrapperCall (f : Facts) := wrapperCallWith f.wrapResLo f.wrapResHi f
 def closureCall (f : Facts) := wrapperCallWith f.getFuncResLo f.getFuncResHi f
 
-/-- Calling the reflect.MakeFunc wrapper of an interpreted METHOD (`n.recv != nil`; `d.params` starts with the receiver):
-    `recvMade` is what the receiver expression held when the wrapper was MADE (the method value `mv := x.M` was evaluated,
-    `defer x.M()` / `go x.M()` executed, the method was handed to the host), `recvNow` what it holds when the wrapper is
-    CALLED. The literal stores the receiver in `d[numRet]` and the arguments behind it (`d = d[numRet+1:]`). -/
-def methodWrapperCall (f : Facts) (d : FnDef) (call : Rep → List Rep → List Rep) (recvMade recvNow : Rep) (ins : List Rep) : List Rep :=
+/-- Where the wrapper of a method finds its receiver (`n.recv`). -/
+inductive RecvSrc where
+  | var (made now : Rep)   -- an expression of the script (`recv.node`): what it yields when the wrapper is MADE / when it is CALLED
+  | held (v : Rep)         -- the value held by an interface (`receiver{val: rv}`, no node): fixed by the conversion
+
+/-- `bindRecv`: reaching the receiver from the value the method is selected on, in a given state of the heap (`deref`, by
+    address): a value-receiver method selected on a pointer `.ptr (.int a)` gets a copy of the pointee, every other combination the
+    value itself (a pointer-receiver method of an addressable value takes the address of the cell: cells have no identity in
+    this model, that case is exercised by the harness only). -/
+def bindRecvY (deref : Nat → Rep) (wantsPtr : Bool) : Rep → Rep
+  | .ptr (.int a) => if wantsPtr then .ptr (.int a) else deref a.toNat
+  | r => r
+
+/-- the receiver genFunctionWrapper stores in `d[numRet]`; `hMade` / `hNow` are the heap when the wrapper is made / called -/
+def wrapperRecvY (f : Facts) (wantsPtr : Bool) (hMade hNow : Nat → Rep) : RecvSrc → Rep
+  | .var made now => if f.wrapRecvAtCreation then bindRecvY hMade wantsPtr made else bindRecvY hNow wantsPtr now
+  | .held v => if f.wrapRecvHeldAtCall then bindRecvY hNow wantsPtr v else bindRecvY hMade wantsPtr v
+
+/-- Go: a method value `x.M` (also `defer x.M()`, `go x.M()`) evaluates and copies its receiver when it is evaluated; a method
+    called through an interface value reaches the receiver from the value the interface holds at each call -/
+def recvSpec (wantsPtr : Bool) (hMade hNow : Nat → Rep) : RecvSrc → Rep
+  | .var made _ => bindRecvY hMade wantsPtr made
+  | .held v => bindRecvY hNow wantsPtr v
+
+/-- the receiver record genInterfaceWrapper gives the method wrappers of a conversion `var s I = x` (`xConv`: what `x` yields at
+    the conversion, `xNow`: when a method is called) -/
+def ifaceRecvSrcY (f : Facts) (xConv xNow : Rep) : RecvSrc :=
+  if f.ifaceWrapRecvHeld then .held xConv else .var xConv xNow
+
+/-- Calling the reflect.MakeFunc wrapper of an interpreted METHOD (`n.recv != nil`; `d.params` starts with the receiver).
+    The literal stores the receiver in `d[numRet]` and the arguments behind it (`d = d[numRet+1:]`). -/
+def methodWrapperCall (f : Facts) (d : FnDef) (call : Rep → List Rep → List Rep) (wantsPtr : Bool) (hMade hNow : Nat → Rep)
+    (src : RecvSrc) (ins : List Rep) : List Rep :=
   let fr0 := List.replicate (if f.wrapFrameIsDefTypes then d.frameLen else 0) Rep.nil
-  let fr1 := setAt fr0 d.numRet (if f.wrapRecvAtCreation then recvMade else recvNow)
+  let fr1 := setAt fr0 d.numRet (wrapperRecvY f wantsPtr hMade hNow src)
   let fr2 := fillArgs f.wrapSkipShort fr1 (d.numRet + f.wrapRcvrShift) d.params.tail ins
   let fr3 := d.body call fr2
   (fr3.drop f.wrapResLo).take (f.wrapResHi.eval 0 d.numRet - f.wrapResLo)
